@@ -178,10 +178,11 @@ func (b *atxHeadingParser) Close(node ast.Node, reader text.Reader, pc Context) 
 
 	if b.AutoHeadingID {
 		id, ok := node.AttributeString("id")
-		if !ok {
-			generateAutoHeadingID(node.(*ast.Heading), reader, pc)
+		if idBytes, isBytes := id.([]byte); ok && isBytes {
+			pc.IDs().Put(idBytes)
 		} else {
-			pc.IDs().Put(id.([]byte))
+			// no id, or an id that is not text (a number, a boolean, a list)
+			generateAutoHeadingID(node.(*ast.Heading), reader, pc)
 		}
 	}
 }
